@@ -7,6 +7,9 @@
 //                           copy.DST.SRC move.DST.SRC assign.DST.SRC massign.DST.SRC swap.A.B del.AR
 //   --schedules FILE      replay each schedule of FILE (phases consume the schedule one after the other)
 //   --random N --seed S [--pct D] --randprog   N random controlled executions of random programs
+//   --stress N --seed S   E5: N free-running rounds (real threads, no controller, inert hooks, no memory
+//                         observation): 2-4 threads grow_by() on one fresh arena truly concurrently; ONE
+//                         observation record per round, validated by spec/arena/ArenaObs.tla
 //
 // Observation (no addresses are logged):
 //   * malloc/free are wrapped at link time (-Wl,--wrap=malloc,--wrap=free): alignedMalloc'd buffers are
@@ -19,11 +22,15 @@
 //     user-provided default constructor that counts constructions per address.
 #include <dispenso/concurrent_object_arena.h>
 
+#include <sched.h>
+#include <time.h>
 #include <unistd.h>
 
 #include <algorithm>
 #include <map>
+#include <mutex>
 #include <new>
+#include <thread>
 
 #include "../ctl/ctl.h"
 #include "../ctl/drv_common.h"
@@ -675,10 +682,342 @@ execute(const Program& prog, const ctl::RunOptions& base, ctl::Trace& tr, const 
   return total;
 }
 
+
+// ------------------------------------------------------------------------------------------ E5
+// Free-running rounds.  No ctl::Controller exists (every DISPENSO_VERIF_POINT is inert) and g_track is
+// off (malloc / new[] pass through), so the growers race inside what the controlled engines treat as
+// one atomic step - in particular inside the resizeMutex_ section and the compare-exchange of grow_by.
+// A record holds what a user of the public API can observe: what every grow_by returned and size()
+// after it (per-thread program order), and after the join size(), capacity(), numBuffers(), the
+// buffer sizes, the contents and how often each element was default-constructed.
+namespace stress {
+
+constexpr int kMaxGrowers = 4;
+constexpr int kMaxOps = 10;
+constexpr int kMaxDelta = 6;
+constexpr unsigned kDefaultVal = 7;
+constexpr long long kMaxData = 2048;
+
+unsigned g_roundMagic = 0; // written by the main thread between rounds only
+
+// Trivially copyable element with a user-provided default constructor that counts how often it ran
+// on this storage during this round (the storage is malloc'ed: whatever it held before is not a
+// construction of this round, because the magic differs from round to round).
+struct SElem {
+  unsigned val, magic, cnt;
+  SElem() {
+    if (*reinterpret_cast<volatile unsigned*>(&magic) == g_roundMagic)
+      cnt = *reinterpret_cast<volatile unsigned*>(&cnt) + 1;
+    else {
+      magic = g_roundMagic;
+      cnt = 1;
+    }
+    val = kDefaultVal;
+  }
+};
+static_assert(std::is_trivially_copyable<SElem>::value, "SElem must be trivially copyable");
+using SArena = dispenso::ConcurrentObjectArena<SElem, size_t, kAlign>;
+
+struct SOp {
+  long long n = 0; // delta
+  int v = 0; // value tag: worker * 100000 + op index * 100; element j of the range gets v + j
+  long long p = -1; // what grow_by returned
+  long long s = -1; // size() right after the call
+};
+struct Work {
+  int nops = 0;
+  SOp ops[kMaxOps];
+  int spin = 0;
+  long long mis = 0;
+  int nsaved = 0;
+  long long savedIdx[kMaxOps * kMaxDelta];
+  SElem* savedPtr[kMaxOps * kMaxDelta];
+  unsigned savedVal[kMaxOps * kMaxDelta];
+};
+
+inline long long clip(long long x) {
+  return x > 100000000LL || x < -100000000LL ? -99999999LL : x;
+}
+
+struct Shared {
+  std::atomic<long long> go{-1};
+  std::atomic<int> arrived{0}; // workers that have seen the round start (rendezvous)
+  std::atomic<unsigned long long> startAt{0}; // tick at which the workers start (0: not yet known)
+  std::atomic<int> done{0};
+  std::atomic<int> quit{0};
+  std::atomic<long long> beat{0};
+  std::atomic<long long> round{0};
+  SArena* arena = nullptr;
+  int growers = 0;
+  Work w[kMaxGrowers];
+};
+Shared g_sh;
+std::mutex g_outMu;
+FILE* g_out = nullptr;
+long long g_roundsDone = 0, g_opsDone = 0;
+
+long long nowNs() {
+  timespec ts;
+  clock_gettime(CLOCK_MONOTONIC, &ts);
+  return (long long)ts.tv_sec * 1000000000LL + ts.tv_nsec;
+}
+#if defined(__x86_64__) || defined(__i386__)
+inline unsigned long long ticks() {
+  return __builtin_ia32_rdtsc();
+}
+constexpr unsigned long long kStartDelayTicks = 6000;
+#else
+inline unsigned long long ticks() {
+  return (unsigned long long)nowNs();
+}
+constexpr unsigned long long kStartDelayTicks = 2000;
+#endif
+inline void relax(unsigned& n) {
+  if ((++n & 0xffff) == 0)
+    sched_yield();
+}
+
+void grower(SArena& ar, Work& w) {
+  for (volatile int k = 0; k < w.spin; ++k) {
+  }
+  for (int i = 0; i < w.nops; ++i) {
+    SOp& o = w.ops[i];
+    size_t p = ar.grow_by((size_t)o.n);
+    size_t s = ar.size();
+    o.p = clip((long long)p);
+    o.s = clip((long long)s);
+    if (p + (size_t)o.n > s || p > (size_t)kMaxData)
+      ++w.mis; // not dereferenced; the validator rejects p / s anyway
+    else
+      for (long long j = 0; j < o.n; ++j) {
+        SElem* e = &ar[p + (size_t)j];
+        // the elements of the returned range are default-constructed, exactly once
+        if (e->magic != g_roundMagic || e->cnt != 1 || e->val != kDefaultVal)
+          ++w.mis;
+        e->val = (unsigned)(o.v + j);
+        w.savedIdx[w.nsaved] = (long long)p + j;
+        w.savedPtr[w.nsaved] = e;
+        w.savedVal[w.nsaved] = (unsigned)(o.v + j);
+        ++w.nsaved;
+      }
+    // references taken earlier stay valid: same address, same value
+    for (int q = 0; q < w.nsaved; ++q)
+      if (&ar[(size_t)w.savedIdx[q]] != w.savedPtr[q] || w.savedPtr[q]->val != w.savedVal[q])
+        ++w.mis;
+  }
+}
+
+void workerMain(int w) {
+  long long seen = -1;
+  unsigned spins = 0;
+  for (;;) {
+    long long r = g_sh.go.load(std::memory_order_acquire);
+    if (r == seen) {
+      if (g_sh.quit.load(std::memory_order_acquire))
+        return;
+      relax(spins);
+      continue;
+    }
+    seen = r;
+    // rendezvous: the last worker to arrive picks a start tick a little in the future; every worker
+    // spins on the clock until then, so that all programs start within a few nanoseconds of each other
+    // (each worker then adds its own random spin offset)
+    if (g_sh.arrived.fetch_add(1, std::memory_order_acq_rel) + 1 == kMaxGrowers)
+      g_sh.startAt.store(ticks() + kStartDelayTicks, std::memory_order_release);
+    unsigned long long at;
+    while ((at = g_sh.startAt.load(std::memory_order_acquire)) == 0)
+      relax(spins);
+    while (ticks() < at) {
+    }
+    if (w < g_sh.growers)
+      grower(*g_sh.arena, g_sh.w[w]);
+    g_sh.done.fetch_add(1, std::memory_order_acq_rel);
+  }
+}
+
+void printTotals(long long stuck) {
+  printf(
+      "DRIVER executions=%lld steps=%lld completed=%lld deadlocks=%lld diverged=0 stuck=0\n",
+      g_roundsDone + stuck,
+      g_opsDone,
+      g_roundsDone,
+      stuck);
+  fflush(stdout);
+}
+
+// A round that does not finish within the grace period is reported as a record and ends the run (the
+// threads that hang cannot be joined).
+void watchdogMain() {
+  const long long graceNs = 10LL * 1000 * 1000 * 1000;
+  while (!g_sh.quit.load(std::memory_order_acquire)) {
+    usleep(50 * 1000);
+    long long b = g_sh.beat.load(std::memory_order_acquire);
+    if (b != 0 && nowNs() - b > graceNs && !g_sh.quit.load(std::memory_order_acquire)) {
+      std::lock_guard<std::mutex> lk(g_outMu);
+      fprintf(
+          g_out,
+          "{\"e\":\"Arena\",\"round\":%lld,\"stuck\":1,\"done\":%d}\n",
+          g_sh.round.load(std::memory_order_acquire),
+          g_sh.done.load(std::memory_order_acquire));
+      fflush(g_out);
+      printTotals(1);
+      _exit(0);
+    }
+  }
+}
+
+int run(const drv::Args& a) {
+  std::string out = a.str("out", "arena_obs.ndjson");
+  g_out = fopen(out.c_str(), "w");
+  if (!g_out)
+    return 2;
+  long long rounds = a.num("stress", 1000);
+  uint64_t rng = (uint64_t)a.num("seed", 1) * 0x9e3779b97f4a7c15ULL + 37;
+  auto rnd = [&](int n) { return (int)(ctl::splitmix(rng) % (uint64_t)n); };
+  std::vector<std::thread> workers;
+  for (int w = 0; w < kMaxGrowers; ++w)
+    workers.emplace_back(workerMain, w);
+  std::thread watchdog(watchdogMain);
+  long long tRun = 0, tBegin = nowNs();
+  for (long long r = 0; r < rounds; ++r) {
+    // ---- the round's configuration and programs
+    int mb = 1 + rnd(4), n0 = rnd(4);
+    int growers = 2 + rnd(3);
+    long long worst = n0;
+    for (int t = 0; t < growers; ++t) {
+      Work& wk = g_sh.w[t];
+      wk.nops = 0;
+      wk.mis = 0;
+      wk.nsaved = 0;
+      wk.spin = rnd(8) == 0 ? rnd(300) : rnd(24);
+      int nops = 1 + rnd(kMaxOps);
+      for (int k = 0; k < nops; ++k) {
+        SOp o;
+        int x = rnd(12);
+        o.n = x == 0 ? 0 : x < 9 ? 1 + rnd(3) : 4 + rnd(kMaxDelta - 3);
+        o.v = (t + 1) * 100000 + wk.nops * 100;
+        if (worst + o.n > 64)
+          continue;
+        worst += o.n;
+        wk.ops[wk.nops++] = o;
+      }
+    }
+    g_roundMagic = 0x5A000000u | (unsigned)(r & 0xFFFFFF);
+    g_sh.round.store(r, std::memory_order_release);
+    g_sh.beat.store(nowNs(), std::memory_order_release);
+    SArena* ar = new SArena((size_t)mb, (size_t)n0);
+    for (int i = 0; i < n0; ++i)
+      (*ar)[(size_t)i].val = (unsigned)(i + 1);
+    g_sh.arena = ar;
+    g_sh.growers = growers;
+    g_sh.arrived.store(0, std::memory_order_relaxed);
+    g_sh.startAt.store(0, std::memory_order_relaxed);
+    g_sh.done.store(0, std::memory_order_relaxed);
+    long long t1 = nowNs();
+    g_sh.go.store(r, std::memory_order_release);
+    unsigned spins = 0;
+    while (g_sh.done.load(std::memory_order_acquire) != kMaxGrowers)
+      relax(spins); // (the watchdog ends the process if this never happens)
+    tRun += nowNs() - t1;
+    // ---- observation after the join
+    long long size = clip((long long)ar->size());
+    long long cap = clip((long long)ar->capacity());
+    long long nb = clip((long long)ar->numBuffers());
+    long long bs = (long long)ar->kBufferSize;
+    long long n = size < 0 ? 0 : (size > kMaxData ? kMaxData : size);
+    long long nbSafe = nb < 0 ? 0 : (nb > kMaxData ? kMaxData : nb);
+    long long bsum = 0;
+    for (long long k = 0; k < nbSafe; ++k)
+      bsum += (long long)ar->getBufferSize((size_t)k);
+    long long moved = 0, bufmis = 0;
+    for (int t = 0; t < growers; ++t)
+      for (int q = 0; q < g_sh.w[t].nsaved; ++q)
+        if (g_sh.w[t].savedIdx[q] < n && &(*ar)[(size_t)g_sh.w[t].savedIdx[q]] != g_sh.w[t].savedPtr[q])
+          ++moved;
+    std::string s, cx;
+    char b[256];
+    snprintf(
+        b,
+        sizeof b,
+        "{\"e\":\"Arena\",\"round\":%lld,\"stuck\":0,\"mb\":%d,\"bs\":%lld,\"n0\":%d,\"thr\":[",
+        r,
+        mb,
+        clip(bs),
+        n0);
+    s += b;
+    for (int t = 0; t < growers; ++t) {
+      const Work& w = g_sh.w[t];
+      snprintf(b, sizeof b, "%s{\"mis\":%lld,\"ops\":[", t ? "," : "", clip(w.mis));
+      s += b;
+      for (int k = 0; k < w.nops; ++k) {
+        const SOp& o = w.ops[k];
+        snprintf(b, sizeof b, "%s[%lld,%d,%lld,%lld]", k ? "," : "", o.n, o.v, o.p, o.s);
+        s += b;
+      }
+      s += "]}";
+      g_opsDone += w.nops;
+    }
+    std::string data;
+    for (long long i = 0; i < n; ++i) {
+      const SElem& e = (*ar)[(size_t)i];
+      if (bs > 0 && i / bs < nbSafe && &e != ar->getBuffer((size_t)(i / bs)) + (i % bs))
+        ++bufmis;
+      snprintf(b, sizeof b, "%s%lld", i ? "," : "", clip((long long)e.val));
+      data += b;
+      long long c = e.magic == g_roundMagic ? (long long)e.cnt : 0;
+      if (c != 1) { // sparse: every index not listed was default-constructed exactly once
+        snprintf(b, sizeof b, "%s[%lld,%lld]", cx.empty() ? "" : ",", i, clip(c));
+        cx += b;
+      }
+    }
+    snprintf(
+        b,
+        sizeof b,
+        "],\"size\":%lld,\"cap\":%lld,\"nb\":%lld,\"bsum\":%lld,\"moved\":%lld,\"bufmis\":%lld,\"data\":[",
+        size,
+        cap,
+        nb,
+        clip(bsum),
+        moved,
+        bufmis);
+    s += b;
+    s += data;
+    s += "],\"cx\":[";
+    s += cx;
+    s += "]}\n";
+    delete ar;
+    {
+      std::lock_guard<std::mutex> lk(g_outMu);
+      fwrite(s.data(), 1, s.size(), g_out);
+    }
+    ++g_roundsDone;
+  }
+  g_sh.quit.store(1, std::memory_order_release);
+  for (auto& t : workers)
+    t.join();
+  watchdog.join();
+  fclose(g_out);
+  if (a.has("timing"))
+    fprintf(
+        stderr,
+        "stress timing (ms): concurrent phase %lld, total %lld\n",
+        tRun / 1000000,
+        (nowNs() - tBegin) / 1000000);
+  printTotals(0);
+  return 0;
+}
+
+} // namespace stress
+
 int main(int argc, char** argv) {
   for (auto& x : g_poison)
     x = kPoisonWord;
   drv::Args a(argc, argv);
+  if (a.has("stress")) {
+    int rc = stress::run(a);
+    fflush(stdout);
+    _exit(rc);
+  }
   ctl::Trace tr(a.str("out", "trace.ndjson"));
   drv::Totals tot;
   Program prog = parseProg(a.str("prog", "m:new.A.1.0|g1:grow.A.1"));
